@@ -503,6 +503,36 @@ func (g *gen) fillMessage(m *Message) {
 	g.p("")
 }
 
+// fill2Message: like vhFill but every map holds several entries whose keys exercise the
+// reference key order (negative and positive numbers, both booleans, prefix-related
+// strings); used by the native validation of the specification encoder.
+func (g *gen) fill2Message(m *Message) {
+	g.p("func vhFill2_%s(x *%s) {", m.GoName, m.GoName)
+	g.p("\tvhFill_%s(x)", m.GoName)
+	for i, f := range m.Fields {
+		if f.Card != "map" || (f.Val.Kind == "message" && f.Val.MsgName == "") {
+			continue
+		}
+		var keys []string
+		switch f.Key.Kind {
+		case "bool":
+			keys = []string{"true", "false"}
+		case "string":
+			keys = []string{"\"b\"", "\"ab\"", "\"a\"", "\"\"", "\"\u00e9\""}
+		case "uint32", "uint64", "fixed32", "fixed64":
+			keys = []string{f.Key.GoType + "(300)", f.Key.GoType + "(5)", f.Key.GoType + "(4000000000)"}
+		default:
+			keys = []string{f.Key.GoType + "(-3)", f.Key.GoType + "(7)", f.Key.GoType + "(-200)", f.Key.GoType + "(0)"}
+		}
+		g.p("\tx.%s = %s{}", f.GoName, f.MapGo)
+		for k, key := range keys {
+			g.p("\tx.%s[%s] = %s", f.GoName, key, g.concExpr(f.Val, (i+k)%5))
+		}
+	}
+	g.p("}")
+	g.p("")
+}
+
 // ---------- equality ----------
 
 func (g *gen) eqVal(f *Field, id, a, b string, ind string) {
@@ -818,6 +848,25 @@ func (g *gen) harnessUnknown(prop string, m *Message) {
 			g.p("")
 		}
 	}
+	if prop == "C01" {
+		g.p("// round trip through the real protobuf-go entry points (proto.Marshal / proto.Unmarshal)")
+		g.p("func VH_C01_%s__library() {", n)
+		g.p("\tx := &%s{}", n)
+		g.p("\tif vhChoice(\"filled\", 2) == 1 {")
+		g.p("\t\tvhFill_%s(x)", n)
+		g.p("\t}")
+		g.p("\tx.unknownFields = []byte{0x80, 0xa4, 0x3c, 0x07}")
+		g.p("\tdet := vhChoice(\"det\", 2) == 1")
+		g.p("\tout, err := proto.MarshalOptions{Deterministic: det}.Marshal(x)")
+		g.p("\tvhAssert(\"marshal.noerr\", err == nil)")
+		g.p("\ty := &%s{}", n)
+		g.p("\tvhFill_%s(y) // must be reset by Unmarshal", n)
+		g.p("\tuerr := proto.Unmarshal(out, y)")
+		g.p("\tvhAssert(\"unmarshal.noerr\", uerr == nil)")
+		g.p("\tvhAssertEq_%s(\"rt\", x, y)", n)
+		g.p("}")
+		g.p("")
+	}
 	if prop == "C04" {
 		g.p("// the same facts through the real protobuf-go entry points (proto.Size / MarshalOptions.MarshalAppend)")
 		g.p("func VH_C04_%s__library() {", n)
@@ -859,6 +908,7 @@ func (g *gen) CodecSource(props []string, msgs []*Message, h2 bool, fieldFilter 
 		}
 		g.anyMessage(m)
 		g.fillMessage(m)
+		g.fill2Message(m)
 		g.eqMessage(m)
 		g.codecDrivers(m)
 		for _, f := range m.All {
